@@ -53,7 +53,7 @@ def valid_text(rnd, ca, plat, version, a, seq=None):
     toks += spell_port(rnd, proto, plat, version, a["sport"], tbl)
     toks += ag.spell(rnd, plat, a["dst"][1], a["dst"][2])[1].split()
     toks += spell_port(rnd, proto, plat, version, a["dport"], tbl)
-    toks += list(a["flags"]) + list(a["logs"])
+    toks += list(a["flags"]) + [t for o in a.get("opts", []) for t in o] + list(a["logs"])
     return toks
 
 
@@ -113,6 +113,11 @@ def gen_cases(ctx, n_valid, n_bad, salt=0):
             for f in ("src", "dst"):
                 if rnd.random() < 0.5:
                     a[f] = ("set", a[f][1], ag.rand_nc_mask(rnd, 3))
+        if rnd.random() < 0.2:        # keyword/value options: the pair must stay together, in this order
+            a["opts"] = rnd.sample([("dscp", "af11"), ("precedence", "critical"), ("tos", "min-delay"), ("time-range", "alpha"),
+                                    ("dscp", "ef"), ("fragments",), ("time-range", "zz9")], rnd.choice([1, 1, 2]))
+            if len(a["opts"]) == 2 and a["opts"][0][0] == a["opts"][1][0]:
+                a["opts"] = a["opts"][:1]
         seq = rnd.choice([None, None, 10, 1, 4294967295, rnd.randint(1, 10 ** 6)])
         toks = valid_text(rnd, ca, plat, version, a, seq)
         valid = i < n_valid
